@@ -496,6 +496,11 @@ def analyze(prog):
         for x in ec:
             for _, m in nodes[x].get('params', []):
                 if m[0] == 'sw':
+                    # a case sub-pipeline that can only start after dest is final (its decider depends on a
+                    # consumer of the recurrent result) never overlaps with the iterations: not a second scope
+                    rcons = {c for c, _, k in cons.get(dest, []) if k == 'dest'}
+                    if rcons and rcons & (ancestors(prog, m[2]) | {m[2]}):
+                        continue
                     # the selected case is not known statically: take the maximum over cases
                     n += max([count(c, dest, depth + 1) for _, c in m[3]] or [0])
         return n
